@@ -208,6 +208,35 @@ namespace igris
     }
 }
 
+// ---- round 3b: flat_map / flat_set under ALLOCATION FAILURE.  Both classes (and the compat/std shims) take an
+// allocator parameter and hand it to their storage vector: the compat unit instantiates them with FA, so that the
+// storage is igris::vector<value_type, FA<value_type>>.  `afail <k> <op …>`: the k-th allocation made during the
+// operation throws std::bad_alloc; std::map / std::set promise "no effects" for a single-element insertion that throws,
+// so the dump must be what it was; then the SAME operation runs again unarmed and its line is the compared result.
+inline long g_fa_fuse = -1; // -1 = disarmed
+inline long g_fa_fired = 0;
+template <class T> struct FA
+{
+    using value_type = T;
+    FA() = default;
+    template <class U> FA(const FA<U> &) {}
+    T *allocate(size_t n)
+    {
+        if (g_fa_fuse == 0)
+        {
+            g_fa_fuse = -1;
+            g_fa_fired++;
+            throw std::bad_alloc();
+        }
+        if (g_fa_fuse > 0)
+            g_fa_fuse--;
+        return std::allocator<T>().allocate(n); // exactly sized heap block: ASan red zones on both sides
+    }
+    void deallocate(T *p, size_t n) { std::allocator<T>().deallocate(p, n); }
+    bool operator==(const FA &) const { return true; }
+    bool operator!=(const FA &) const { return false; }
+};
+
 // MK = key type of the map, Key = key type of the set
 // HOSTED = the storage is the libstdc++ vector: the members of flat_map / flat_set that forward to vector members
 // igris::vector does not have (cbegin/cend, crbegin/crend, max_size, shrink_to_fit, swap, get_allocator) compile
@@ -257,6 +286,31 @@ template <class Map, class Set, class Val, class Key, class MK = int, bool HOSTE
         {
             reset();
             return "ok";
+        }
+        if (op == "afail")
+        { // `afail <k> <op …>` (see FA above); with std::allocator storage (hosted build) the operation simply runs
+            size_t p1 = line.find(' '), p2 = p1 == std::string::npos ? p1 : line.find(' ', p1 + 1);
+            if (p2 == std::string::npos)
+                return "bad-op";
+            std::string rest = line.substr(p2 + 1), before = dump();
+            bool threw = false;
+            std::string first;
+            g_fa_fuse = a[1];
+            try
+            {
+                first = step(rest);
+            }
+            catch (const std::bad_alloc &)
+            {
+                threw = true;
+            }
+            g_fa_fuse = -1;
+            if (!threw)
+                return first; // no allocation was refused: the operation has run, this is its line
+            std::string after = dump();
+            if (after != before)
+                return "af=BAD" + after + " was" + before;
+            return step(rest);
         }
         if (op == "mset")
             fm[mk(a[1])] = Val(a[2]);
